@@ -21,7 +21,7 @@
 //	load <kind>                    background load for the next run                -> skip
 //	run <seed> <goroutines> <n>    run scripts and load concurrently, wait for quiescence,
 //	                               print registry / cluster-local / advertised counts
-//	fdorder <bootstrap_us> <stall_us>   witness of the known finding F8 (see fdOrder) -> skip
+//	fdorder <bootstrap_us> <stall_us>   documentation of the fixed finding F8 (see fdOrder) -> skip
 package conc
 
 import (
@@ -501,7 +501,7 @@ func (e *supervisor) crashed(o *Out, why string) string {
 
 // ------------------------------------------------------------------------------ generator
 
-var loadKinds = []string{"sel", "packet", "stream", "out", "periodic", "status", "fd"}
+var loadKinds = []string{"sel", "packet", "stream", "out", "periodic", "status", "fd", "fdfirst"}
 
 func genScript(r *rand.Rand, n int) string {
 	var b strings.Builder
@@ -698,19 +698,20 @@ func WorkerMain() {
 	}
 }
 
-// fdOrder is the deterministic linearisation of a schedule between two production
-// goroutines, written with the failure detector's injectable entry points: Report (packet
-// listener goroutine) samples time.Now() BEFORE it takes the detector's mutex; if it is
-// stalled there while the liveness task (UpdateLiveness -> SuspicionLevel) evaluates the same
-// node for the first time, the window is created with the later timestamp and Report then
-// adds a NEGATIVE interval.  With a stall >= the bootstrap interval the mean is <= 0 and the
-// next liveness tick panics in arrivalWindow.Phi - on the scheduleFunc goroutine, which has
-// no recover.
+// fdOrder documents finding F8 (fixed in /repo by 47223ec).  Before the fix Report and
+// SuspicionLevel sampled time.Now() BEFORE taking the detector's mutex: a Report stalled there
+// for >= the bootstrap interval while the liveness task (UpdateLiveness -> SuspicionLevel)
+// evaluated the same node for the first time found the window created with the later
+// timestamp, added a NEGATIVE interval (mean <= 0), and the next liveness tick panicked in
+// arrivalWindow.Phi on the scheduleFunc goroutine (no recover).  This op replays that
+// linearisation through the injectable entry points ReportWithTimestamp / SuspicionLevelAt
+// with hand-made out-of-order timestamps.  Those entry points still accept any timestamps by
+// design, so the panic here is NOT an oracle failure (it is counted only); the regression for
+// the real entry points is the `fdfirst` load of `run`.
 func fdOrder(bootstrap, stall time.Duration, out *wout) {
 	defer func() {
 		if r := recover(); r != nil {
-			out.fail("C20", "panic", fmt.Sprintf("%v: liveness tick after Report(t1) was applied behind SuspicionLevel(t1+%s) that created the window (bootstrap %s): %s",
-				r, stall, bootstrap, pikoFrames(string(debug.Stack()))))
+			out.count("fdorder:injectable-api-panics-on-out-of-order-timestamps", 1)
 		}
 	}()
 	fd := pgossip.VNewAccrualFD(bootstrap, 50)
@@ -718,6 +719,42 @@ func fdOrder(bootstrap, stall time.Duration, out *wout) {
 	_ = fd.SuspicionLevelAt("p", t1.Add(stall))           // liveness task: no window yet -> created at t1+stall
 	fd.ReportWithTimestamp("p", t1)                       // Report resumes: interval = -stall
 	_ = fd.SuspicionLevelAt("p", t1.Add(stall+bootstrap)) // next liveness tick
+}
+
+// fdFirst is the real-entry-point regression for F8: the packet goroutine's Report(id) and the
+// liveness task's SuspicionLevel(id) meet on a node neither has seen (both called through the
+// production methods, which read the clock themselves), for `nops` fresh ids, on a real
+// detector whose bootstrap interval is the smallest possible so that any inversion between
+// "clock read" and "mutex taken" makes the mean non-positive; SuspicionLevel of the previous
+// id then panics.  With the clock read under the mutex no inversion exists.
+func fdFirst(nops int, prog *atomic.Int64, out *wout) {
+	fd := pgossip.VNewAccrualFD(time.Nanosecond, 50)
+	ch := make(chan int)
+	var wg sync.WaitGroup
+	wg.Add(1)
+	go func() { // the liveness task
+		defer wg.Done()
+		defer func() {
+			if r := recover(); r != nil {
+				out.fail("C20", "panic", fmt.Sprintf("%v in liveness goroutine racing Report on a first-seen node: %s", r, pikoFrames(string(debug.Stack()))))
+				for range ch { // let the reporter finish
+				}
+			}
+		}()
+		for i := range ch {
+			_ = fd.SuspicionLevel("x" + strconv.Itoa(i))
+			if i > 0 {
+				_ = fd.SuspicionLevel("x" + strconv.Itoa(i-1))
+			}
+		}
+	}()
+	for i := 0; i < nops; i++ { // the packet listener
+		prog.Add(1)
+		ch <- i
+		fd.Report("x" + strconv.Itoa(i))
+	}
+	close(ch)
+	wg.Wait()
 }
 
 func newNode(id, proxy, admin string) *node {
@@ -960,6 +997,8 @@ func (n *node) roles(eps []string) map[string]role {
 			}
 			_ = sum
 		},
+		// F8 regression (see fdFirst)
+		"fdfirst": func(r *rand.Rand, nops int, out *wout) { fdFirst(nops, &n.prog, out) },
 		// liveness evaluation outside UpdateLiveness.  Reads only: in production Report has a
 		// single caller (the packet goroutine) and Remove is only called by RemoveExpiredAt.
 		"fd": func(r *rand.Rand, nops int, out *wout) {
